@@ -1,4 +1,5 @@
 import PSO.Model.NodeSend
+import PSO.Proofs.NodeSendBasic
 
 /-! # Node-local membership theorems (C10): gate, member set = fold of the log, adjacent majorities
 
@@ -424,5 +425,331 @@ theorem changeCluster_spec {s s' : Node} {k : Kind} {acc : Bool} {o : List Out}
           obtain ⟨h1, h2, h3⟩ := h
           subst h1; subst h2; subst h3
           simp [hn]
+
+theorem parseChange_some {k k' : Kind} (h : parseChange k = some k') : k' = k := by
+  cases k <;> simp [parseChange] at h <;> simp [← h]
+
+theorem leaderAccept_spec (s1 : Node) (cmd : Cmd) (cb : Cb) (idx term : Nat) (isReq : Bool) :
+    let r := leaderAccept s1 cmd cb idx term isReq
+    r.1.log = s1.log ++ [⟨cmd, idx, term⟩] ∧ r.1.members = s1.members ∧ r.1.self = s1.self ∧
+    r.1.lastApplied = s1.lastApplied ∧ r.1.noopIdx = s1.noopIdx ∧
+    r.1.changeIdx = (if isReq then some idx else s1.changeIdx) ∧ r.1.waitReply = s1.waitReply ∧
+    r.1.waitCommit = s1.waitCommit ++ (match cb with | .loc id => [(idx, term, id)] | _ => []) ∧
+    r.2.2 ≠ .denied ∧ (∀ x ∈ r.2.1, x.isSend = true) := by
+  cases cb <;> simp [leaderAccept, Out.isSend]
+
+/-- **Gate (C10).**  A leader that is asked for a membership change (`dynamicMembershipChange` on) appends the
+entry only if the no-op of its own term is applied (`lastApplied ≥ noopIDx`), no earlier accepted change is
+still recorded as unapplied, and the request really changes the member set; then it records the entry's index.
+Otherwise the requester gets REQUEST_DENIED, and log and member set are unchanged. -/
+theorem gate {cfg : Conf} {s s' : Node} {cmd : Cmd} {cb : Cb} {o : List Out} {br : Branch}
+    (h : leaderDispatch cfg s cmd cb = .ok (s', o, br)) (hreq : isRequest cfg cmd = true) :
+    (br ≠ .denied →
+      ∃ noop last, s.noopIdx = some noop ∧ noop ≤ s.lastApplied ∧
+        (∀ c, s.changeIdx = some c → c ≤ s.lastApplied) ∧ lastIdx? s.log = some last ∧
+        s'.log = s.log ++ [⟨cmd, last + 1, s.term⟩] ∧ s'.changeIdx = some (last + 1) ∧
+        s'.members = (memStep s.self s.members cmd.kind false).1 ∧
+        (memStep s.self s.members cmd.kind false).2 = true) ∧
+    (br = .denied → s'.log = s.log ∧ s'.members = s.members ∧ o = deniedOut cb) := by
+  unfold leaderDispatch at h
+  cases hl : lastIdx? s.log with
+  | none => simp [hl] at h
+  | some last =>
+    simp only [hl] at h
+    unfold isRequest at hreq
+    simp only [Bool.and_eq_true] at hreq
+    obtain ⟨hdyn, hp⟩ := hreq
+    obtain ⟨k, hk⟩ := Option.isSome_iff_exists.mp hp
+    have hkk := parseChange_some hk
+    subst hkk
+    unfold gateOf at h
+    simp only [hdyn, if_true, hk] at h
+    cases hg : changeCluster s cmd.kind with
+    | error e => simp [hg] at h
+    | ok res =>
+      obtain ⟨s1, acc, o1⟩ := res
+      have hs := changeCluster_spec hg
+      cases acc with
+      | false =>
+        simp only [hg] at h
+        simp at h
+        obtain ⟨h1, h2, h3⟩ := h
+        subst h1; subst h2; subst h3
+        have hd := hs.2.2.2.2.2.2.2 rfl
+        refine ⟨fun hne => absurd rfl hne, fun _ => ⟨hs.1, hd.1, by simp [hd.2]⟩⟩
+      | true =>
+        simp only [hg] at h
+        have hacc := hs.2.2.2.2.2.2.1 rfl
+        have hla := leaderAccept_spec s1 cmd cb (last + 1) s.term (isRequest cfg cmd)
+        simp only [] at hla
+        have hisreq : isRequest cfg cmd = true := by simp [isRequest, hdyn, hk]
+        generalize hres : leaderAccept s1 cmd cb (last + 1) s.term (isRequest cfg cmd) = res at h hla
+        obtain ⟨s3, o3, br3⟩ := res
+        simp only [] at h hla
+        obtain ⟨hlog, hmem, _, _, _, hci, _, _, hbr, _⟩ := hla
+        obtain ⟨⟨noop, hn1, hn2⟩, hc, _, hmm, heff⟩ := hacc
+        by_cases hub : cfg.useBatch
+        · simp [hub] at h
+          obtain ⟨h1, _, h3⟩ := h
+          subst h1; subst h3
+          refine ⟨fun _ => ⟨noop, last, hn1, hn2, hc, rfl, by rw [hlog, hs.1], by simp [hci, hisreq], by rw [hmem, hmm], heff⟩,
+                  fun hd => absurd hd hbr⟩
+        · simp only [hub, Bool.false_eq_true, if_false] at h
+          cases hsa : sendAll cfg (fun _ => []) s3 none with
+          | error e => simp [hsa] at h
+          | ok r4 =>
+            obtain ⟨s4, o4⟩ := r4
+            simp [hsa] at h
+            obtain ⟨h1, _, h3⟩ := h
+            subst h1; subst h3
+            have hf := (sendAll_frame hsa).1
+            simp only [SameCore] at hf
+            refine ⟨fun _ => ⟨noop, last, hn1, hn2, hc, rfl, by rw [hf.1, hlog, hs.1], by rw [hf.2.2.2.2.2.1]; simp [hci, hisreq],
+                      by rw [hf.2.1, hmem, hmm], heff⟩, fun hd => absurd hd hbr⟩
+
+/-- every membership entry of the log is applied, or lies before the leader's own no-op, or is the recorded
+pending change -/
+def GateInv (s : Node) : Prop :=
+  ∀ e ∈ s.log, isMembership e.cmd.kind = true →
+    e.idx ≤ s.lastApplied ∨ (∃ n, s.noopIdx = some n ∧ e.idx < n) ∨ (∃ c, s.changeIdx = some c ∧ e.idx ≤ c)
+
+/-- **No two changes in flight.**  When the gate lets a membership request through, every membership entry
+already in the leader's log is applied. -/
+theorem gate_all_applied {cfg : Conf} {s s' : Node} {cmd : Cmd} {cb : Cb} {o : List Out} {br : Branch}
+    (hinv : GateInv s) (h : leaderDispatch cfg s cmd cb = .ok (s', o, br)) (hreq : isRequest cfg cmd = true)
+    (hbr : br ≠ .denied) : ∀ e ∈ s.log, isMembership e.cmd.kind = true → e.idx ≤ s.lastApplied := by
+  obtain ⟨noop, last, hn1, hn2, hc, _⟩ := (gate h hreq).1 hbr
+  intro e he hm
+  rcases hinv e he hm with h1 | ⟨n, hn, hlt⟩ | ⟨c, hcc, hle⟩
+  · exact h1
+  · rw [hn1] at hn; cases hn; omega
+  · have := hc c hcc; omega
+
+/-- **Remove self is denied**: on the admin path before anything is queued, and by the gate on the API path. -/
+theorem remove_self_denied_admin (s : Node) (n : Nat) : adminRemoveDenied s n = true ↔ s.self = some n := by
+  simp [adminRemoveDenied]
+
+theorem remove_self_denied {cfg : Conf} {s s' : Node} {cmd : Cmd} {cb : Cb} {o : List Out} {br : Branch} {n : Nat}
+    (h : leaderDispatch cfg s cmd cb = .ok (s', o, br)) (hdyn : cfg.dynMember = true)
+    (hk : cmd.kind = .rem n) (hself : s.self = some n) :
+    br = .denied ∧ s'.log = s.log ∧ s'.members = s.members ∧ o = deniedOut cb := by
+  have hreq : isRequest cfg cmd = true := by simp [isRequest, hdyn, hk, parseChange]
+  have hg := gate h hreq
+  by_cases hbr : br = .denied
+  · exact ⟨hbr, hg.2 hbr⟩
+  · obtain ⟨_, _, _, _, _, _, _, _, _, heff⟩ := hg.1 hbr
+    simp [hk, memStep, changeDir, hself] at heff
+
+/-! ## member set = fold of the log -/
+
+/-- node-local membership invariant over a base configuration `base` (the configuration before the first
+entry of `s.log`): the member list is duplicate-free, does not contain the node, equals (as a set) the fold of
+the membership entries of the log, and every membership entry was effective when it took effect -/
+structure MInv (base : List Nat) (s : Node) : Prop where
+  base_good : Good s.self base
+  good : Good s.self s.members
+  eq : SetEq s.members (foldConfig s.self base s.log)
+  eff : Eff s.self base s.log
+
+/-- **Leader append keeps `members = fold(log)`** (`dynamicMembershipChange` on): an accepted command of any
+kind — for a membership request the change takes effect when appended — and a refused one. -/
+theorem members_eq_fold_leader {cfg : Conf} {base : List Nat} {s s' : Node} {cmd : Cmd} {cb : Cb} {o : List Out}
+    {br : Branch} (hinv : MInv base s) (hdyn : cfg.dynMember = true)
+    (h : leaderDispatch cfg s cmd cb = .ok (s', o, br)) : MInv base s' := by
+  by_cases hreq : isRequest cfg cmd = true
+  · have hg := gate h hreq
+    by_cases hbr : br = .denied
+    · obtain ⟨hlog, hmem, _⟩ := hg.2 hbr
+      have hself : s'.self = s.self := by
+        unfold leaderDispatch at h
+        split at h
+        · simp at h
+        · unfold gateOf at h
+          have hp : (parseChange cmd.kind).isSome = true := by simp [isRequest, hdyn] at hreq; exact hreq
+          obtain ⟨k, hk⟩ := Option.isSome_iff_exists.mp hp
+          simp only [hdyn, if_true, hk] at h
+          cases hgc : changeCluster s k with
+          | error e => simp [hgc] at h
+          | ok res =>
+            obtain ⟨s1, acc, o1⟩ := res
+            have hs := changeCluster_spec hgc
+            cases acc with
+            | false => simp [hgc] at h; rw [← h.1]; exact hs.2.1
+            | true =>
+              simp only [hgc] at h
+              have hla := leaderAccept_spec s1 cmd cb
+              split at h
+              · simp at h; exact absurd h.2.2 (by
+                  intro hb; rw [← hb] at hbr
+                  exact (hla _ _ _).2.2.2.2.2.2.2.2.1 hbr)
+              · split at h
+                · simp at h
+                · simp at h; exact absurd h.2.2 (by
+                    intro hb; rw [← hb] at hbr
+                    exact (hla _ _ _).2.2.2.2.2.2.2.2.1 hbr)
+      exact ⟨by rw [hself]; exact hinv.base_good, by rw [hself, hmem]; exact hinv.good,
+             by rw [hself, hmem, hlog]; exact hinv.eq, by rw [hself, hlog]; exact hinv.eff⟩
+    · obtain ⟨noop, last, _, _, _, _, hlog, _, hmem, heff⟩ := hg.1 hbr
+      have hself : s'.self = s.self := by
+        unfold leaderDispatch at h
+        split at h
+        · simp at h
+        · unfold gateOf at h
+          have hp : (parseChange cmd.kind).isSome = true := by simp [isRequest, hdyn] at hreq; exact hreq
+          obtain ⟨k, hk⟩ := Option.isSome_iff_exists.mp hp
+          simp only [hdyn, if_true, hk] at h
+          cases hgc : changeCluster s k with
+          | error e => simp [hgc] at h
+          | ok res =>
+            obtain ⟨s1, acc, o1⟩ := res
+            have hs := changeCluster_spec hgc
+            cases acc with
+            | false => simp [hgc] at h; exact absurd h.2.2.symm hbr
+            | true =>
+              simp only [hgc] at h
+              have hla := leaderAccept_spec s1 cmd cb
+              split at h
+              · simp at h; rw [← h.1, (hla _ _ _).2.2.1]; exact hs.2.1
+              · split at h
+                · simp at h
+                · rename_i s4 o4 hsa
+                  simp at h
+                  rw [← h.1, (sendAll_frame hsa).1.2.2.1, (hla _ _ _).2.2.1]; exact hs.2.1
+      refine ⟨by rw [hself]; exact hinv.base_good, by rw [hself, hmem]; exact memStep_good _ _ hinv.good, ?_, ?_⟩
+      · rw [hself, hmem, hlog, foldConfig_append]
+        have := (memStep_congr cmd.kind false hinv.good (foldConfig_good s.log hinv.base_good) hinv.eq).1
+        simpa [foldConfig] using this
+      · rw [hself, hlog, Eff_append]
+        refine ⟨hinv.eff, ?_, trivial⟩
+        apply EffStep_congr cmd.kind hinv.good (foldConfig_good s.log hinv.base_good) hinv.eq
+        unfold EffStep
+        split
+        · trivial
+        · exact Or.inr heff
+  · -- not a membership command: appended without touching the member set
+    have hnp : parseChange cmd.kind = none := by
+      simp [isRequest, hdyn] at hreq
+      exact hreq
+    have hnop : ∀ m, (memStep s.self m cmd.kind false).1 = m := by
+      intro m; cases hk : cmd.kind <;> simp [hk, parseChange] at hnp <;> simp [memStep, changeDir]
+    have hcd : changeDir cmd.kind false = none := by
+      cases hk : cmd.kind <;> simp [hk, parseChange] at hnp <;> simp [changeDir]
+    unfold leaderDispatch at h
+    split at h
+    · simp at h
+    · rename_i last hl
+      unfold gateOf at h
+      simp only [hdyn, if_true, hnp] at h
+      have hla := leaderAccept_spec s cmd cb (last + 1) s.term (isRequest cfg cmd)
+      simp only [] at hla
+      have key : ∀ s3 : Node, s3.log = s.log ++ [⟨cmd, last + 1, s.term⟩] → s3.members = s.members → s3.self = s.self →
+          MInv base s3 := by
+        intro s3 h1 h2 h3
+        refine ⟨by rw [h3]; exact hinv.base_good, by rw [h3, h2]; exact hinv.good, ?_, ?_⟩
+        · rw [h3, h2, h1, foldConfig_append]
+          simp only [foldConfig, List.foldl_cons, List.foldl_nil, hnop]
+          exact hinv.eq
+        · rw [h3, h1, Eff_append]
+          refine ⟨hinv.eff, ?_, trivial⟩
+          unfold EffStep
+          simp [hcd]
+      split at h
+      · simp at h
+        rw [← h.1]
+        exact key _ hla.1 hla.2.1 hla.2.2.1
+      · split at h
+        · simp at h
+        · rename_i s4 o4 hsa
+          simp at h
+          rw [← h.1]
+          have hf := (sendAll_frame hsa).1
+          exact key _ (by rw [hf.1]; exact hla.1) (by rw [hf.2.1]; exact hla.2.1) (by rw [hf.2.2.1]; exact hla.2.2.1)
+
+/-- **Rollback of a truncated suffix keeps `members = fold(log)`**: the member list obtained by rolling back,
+in reverse order, the membership entries of a suffix `old` (what the `append_entries` handler does before it
+deletes a conflicting suffix) equals the fold of the kept prefix. -/
+theorem members_eq_fold_rollback {base : List Nat} {s s1 : Node} {o : List Out} {pre old : List Entry}
+    (hinv : MInv base s) (hlog : s.log = pre ++ old) (h : applyChanges s true old.reverse = .ok (s1, o)) :
+    Good s.self s1.members ∧ SetEq s1.members (foldConfig s.self base pre) ∧ s1.self = s.self := by
+  have hs := applyChanges_spec old.reverse h
+  have heff := hinv.eff
+  rw [hlog, Eff_append] at heff
+  have heq := hinv.eq
+  rw [hlog, foldConfig_append] at heq
+  have hpre := foldConfig_good pre hinv.base_good
+  have hr := rollback_restores old hpre hinv.good heff.2 heq
+  refine ⟨?_, ?_, hs.2.2⟩
+  · rw [hs.1]; exact foldl_bwd_good _ hinv.good
+  · rw [hs.1]; exact hr
+
+/-- **Appending entries on a follower keeps `members = fold(log)`**: applying the membership entries of the
+appended list one after another is the fold step. -/
+theorem members_eq_fold_append {m0 : List Nat} {s s3 : Node} {o : List Out} {new : List Entry}
+    (hg0 : Good s.self m0) (hg : Good s.self s.members) (heq : SetEq s.members m0)
+    (h : applyChanges s false new = .ok (s3, o)) :
+    Good s.self s3.members ∧ SetEq s3.members (foldConfig s.self m0 new) := by
+  have hs := applyChanges_spec new h
+  rw [hs.1]
+  exact ⟨foldConfig_good new hg, foldConfig_congr new hg hg0 heq⟩
+
+theorem nodup_eraseDups : ∀ (l : List Nat), l.eraseDups.Nodup
+  | [] => by simp
+  | a :: as => by
+    rw [List.eraseDups_cons, List.nodup_cons]
+    have : (as.filter fun b => !b == a).length < as.length + 1 := Nat.lt_succ_of_le (List.length_filter_le _ _)
+    refine ⟨?_, nodup_eraseDups _⟩
+    intro hm
+    rw [List.mem_eraseDups, List.mem_filter] at hm
+    simp at hm
+termination_by l => l.length
+
+/-- **Snapshot restore**: the member list becomes the dump's cluster without the node itself, duplicate-free;
+the log becomes the dump's two entries.  (With `base :=` that list and the two entries frozen, `MInv` holds
+again provided the dump's cluster is the configuration at its last entry.) -/
+theorem members_eq_fold_restore {s s' : Node} {o : List Out} (prevE lastE : Entry) (cluster : List Nat)
+    (h : restoreSnapshot s prevE lastE cluster true = .ok (s', o)) :
+    s'.log = [prevE, lastE] ∧ s'.members.Nodup ∧
+    (∀ x, x ∈ s'.members ↔ (x ∈ cluster ∧ s.self ≠ some x)) := by
+  unfold restoreSnapshot at h
+  simp only [if_true] at h
+  unfold updateClusterConfiguration at h
+  simp only [lastIdx?, List.getLast?_cons_cons, List.getLast?_singleton, Option.map_some] at h
+  cases h
+  refine ⟨rfl, nodup_eraseDups _, ?_⟩
+  intro x
+  simp [List.mem_eraseDups, List.mem_filter]
+
+/-- **D6 (recorded finding): re-application at commit time breaks the equation.**  Follower 0 of {0,1,2} holds
+`add 3`@2 and `rem 3`@3 (both took effect when appended: members {1,2}); committing entry 2 re-applies `add 3`:
+the member list contains 3 although the fold of the log does not. -/
+theorem reapply_at_commit_counterexample :
+    let e2 : Entry := ⟨⟨.add 3, 1, 80, 56⟩, 2, 1⟩
+    let e3 : Entry := ⟨⟨.rem 3, 2, 80, 56⟩, 3, 1⟩
+    let s : Node := { self := some 0, members := [1, 2], log := [⟨⟨.noop, 0, 1, 54⟩, 1, 0⟩, e2, e3] }
+    foldConfig s.self [1, 2] s.log = [1, 2] ∧
+    (∃ s' o, reapplyAtCommit s e2 = .ok (s', o) ∧ s'.members = [1, 2, 3] ∧ s'.log = s.log) := by
+  refine ⟨by decide, ?_⟩
+  exact ⟨_, _, rfl, by decide, rfl⟩
+
+/-- … and it is harmless when the re-applied entry does not change the member list (the normal case: the entry
+already took effect when it was appended and nothing later reversed it). -/
+theorem reapply_at_commit_partial {base : List Nat} {s s' : Node} {o : List Out} {e : Entry}
+    (hinv : MInv base s) (h : reapplyAtCommit s e = .ok (s', o))
+    (hnochange : (memStep s.self s.members e.cmd.kind false).2 = false) : MInv base s' := by
+  unfold reapplyAtCommit at h
+  split at h
+  · cases h; exact hinv
+  · rename_i k hk
+    have := parseChange_some hk
+    subst this
+    split at h
+    · simp at h
+    · rename_i s1 ch o1 hd
+      cases h
+      have hs := doChange_spec hd
+      have hch : ch = false := by rw [hs.2.1]; exact hnochange
+      have hm := (hs.2.2.2.2.2.2.2.2.2.2.2.2.2.2 hch).2
+      exact ⟨by rw [hs.2.2.2.1]; exact hinv.base_good, by rw [hs.2.2.2.1, hm]; exact hinv.good,
+             by rw [hs.2.2.2.1, hm, hs.2.2.1]; exact hinv.eq, by rw [hs.2.2.2.1, hs.2.2.1]; exact hinv.eff⟩
 
 end PSO.NodeSend
